@@ -71,8 +71,16 @@ def oracle_case(ds, calc):
     quantities the property names as inputs from the QHA layer (P_total, C_V) and the static pressure."""
     v = numpy.asarray(calc.v_array, dtype=float)
     ntv = len(v)
+    if numpy.any(ds.freq_curv):
+        # not a power-law data set: the spectrum on the grid is what the CONFIGURED interpolation (method and order as written in the
+        # settings file) makes of the file's frequencies.  The interpolation routine itself is C11's subject; calling it here,
+        # independently of the Calculator, checks that the calculation uses the configured method and order and nothing else.
+        from cij.core.mode_gamma import interpolate_modes
+        freq, g, kp = interpolate_modes(calc.qha_input, v, method=ds.interpolator, order=ds.order)
+        freq, g, kp = numpy.array(freq), numpy.array(g), numpy.array(kp)
+    else:
+        freq, g, kp = ds.freq(v), numpy.broadcast_to(ds.gam[None], (ntv, ds.nq, ds.np)).copy(), numpy.zeros((ntv, ds.nq, ds.np))
     return dict(nq=ds.nq, na=ds.nat, np=ds.np, v=v, t=numpy.asarray(calc.t_array, dtype=float),
-                freq=ds.freq(v), g=numpy.broadcast_to(ds.gam[None], (ntv, ds.nq, ds.np)).copy(),
-                kp=numpy.zeros((ntv, ds.nq, ds.np)), w=ds.weights.copy(),
+                freq=freq, g=g, kp=kp, w=ds.weights.copy(),
                 ptot=numpy.asarray(calc.qha_calculator.volume_base.pressures), pst=numpy.asarray(calc.static_p_array),
                 cv=numpy.asarray(calc.qha_calculator.volume_base.heat_capacity))
